@@ -156,7 +156,12 @@ def run(ctx):
             P = [[rng.randint(0, 9), rng.randint(0, 9), rng.randint(0, 9)] for _ in range(nv_)]
             cases.append({"id": "L-%s" % name, "given": {"kind": "surface", "P": P, "F": F, "family": "L"}, "events": _events(rng, "surface", nev, False)})
     for j, (dims, keep) in enumerate([((1, 1, 1), 1.0), ((2, 1, 1), 1.0), ((2, 2, 1), 0.6)] + ([((2, 2, 2), 0.5)] if thorough else [])):
-        P, C = c03.kuhn(rng, *dims, keep=keep)
+        for _try in range(30):          # a random sub-selection of cubes can leave two cells that touch along an edge only: not a manifold volume (precondition of C03)
+            P, C = c03.kuhn(rng, *dims, keep=keep)
+            if C and c03.fans_connected(C):
+                break
+        else:
+            continue
         cases.append({"id": "K-%d" % j, "given": {"kind": "volume", "P": P, "C": C, "family": "K"}, "events": _events(rng, "volume", 2 * nev, False)})
     obs = ctx.execute("c10", "exec_case", cases, chunksize=8)
     ctx.judge("C10_Trace", "C10_Trace.cfg", obs, "trees-and-forests", "c10", "exec_case", batch_events=300)
